@@ -90,6 +90,9 @@ let run () = iter_lines (fun line ->
   | 'G', [n; r] ->
     bump "crlf-big"; note_distinct line true;
     if r <> "ok" then report "SPEC:C13" (Printf.sprintf "CRLF translation of an output with %s CR LF pairs: %s" n r) line
+  | 'E', [_inp; r] ->
+    bump "exec-early-exit-long-input"; note_distinct line true;
+    if r <> "ok" then report "SPEC:C13" ("a shell that leaves early (exit 3) with 200 kB of its input unread: the recorded exit code / output is not the command's: " ^ r) line
   | 'H', [inp; r] ->
     bump ("exec-big-crlf:" ^ (match split_on ' ' inp with ex :: fd :: _ -> ex ^ "/fd" ^ fd | _ -> "?")); note_distinct line true;
     if r <> "ok" then report "SPEC:C13" ("CR LF translation of a large output through the real executor (a CR at every odd offset): " ^ r) line
